@@ -31,7 +31,8 @@ META = {
         'commitment effects beyond D2 (the regular abstraction can miss, never invent, a spec-vs-reader failure).'
         ' Also (D5): the handler around the zone look-up catches what zoneinfo.timezone raises for a name this host cannot map (the stamp is kept, the document is not rejected).'
         ' Also (D1): quantity split (number token vs unit start).  (D3) parse entries compare the mode only after _parse_mode.'
-        ' Also (D1): the time literal is converted exactly (strptime %f on six digits, or zero-padded text then int()).  (D5) astimezone() sits in a handler that catches OverflowError.'),
+        ' Also (D1): the time literal is converted exactly (strptime %f on six digits, or zero-padded text then int()).  (D5) astimezone() sits in a handler that catches OverflowError.'
+        ' Round 9: (D5) the zone tables are published complete (bound by assignment, never filled in place); (D3) no second lexer over the raw text; lazy first-or-None result forms are classified.'),
     'rule_text': 'obligations = spec kinds x versions (inclusion + tie hazards), structure inclusion, action facts, '
                  'escape table rows, framing facts',
     'trusted_base': ['spec/zinc_spec.json transcribes the published grammar; pyparsing Or = longest match'],
